@@ -197,6 +197,7 @@ type fnCtx struct {
 	paths   []Path
 	trunc   bool
 	visited map[*cfg.Block]int
+	nbranch int
 }
 
 type caseInfo struct {
@@ -362,6 +363,12 @@ func (c *fnCtx) guardFor(b *cfg.Block, i int) alts {
 	base.Pos = last.Pos()
 	base.Node = last
 	if ci := c.caseOf[last]; ci != nil {
+		if ci.sw.Tag == nil {
+			// tagless switch: each case expression is an ordinary condition
+			base.GKind = GIf
+			base.Stmt = ci.clause
+			return c.condAlts(last, val, base)
+		}
 		base.GKind = GSwitchCase
 		base.Cond = last
 		base.Tag = ci.sw.Tag
@@ -385,7 +392,8 @@ func (c *fnCtx) condIsSplit(b *cfg.Block) bool {
 	if !ok {
 		return false
 	}
-	return c.caseOf[last] == nil
+	ci := c.caseOf[last]
+	return ci == nil || ci.sw.Tag == nil
 }
 
 // condAlts expands a condition with short-circuit operators into the alternative operand
@@ -848,6 +856,20 @@ func (c *fnCtx) inlineTarget(tgt *types.Func, via types.Object, call *ast.CallEx
 	return out
 }
 
+// branchy: the function has so many branch points that multiplying its paths by a helper's is not
+// worth it (numeric code); helpers are then left as plain call events.
+func (c *fnCtx) branchy() bool {
+	if c.nbranch == 0 {
+		c.nbranch = 1
+		for _, b := range c.g.Blocks {
+			if len(b.Succs) == 2 {
+				c.nbranch++
+			}
+		}
+	}
+	return c.nbranch > 16
+}
+
 // deriveFunc makes the per-call-site instance of a helper: same syntax and types, with its
 // parameters and receiver bound to the caller's argument expressions (for provenance).
 func deriveFunc(def *Func, caller *Func, call *ast.CallExpr, recv ast.Expr) *Func {
@@ -865,8 +887,8 @@ func deriveFunc(def *Func, caller *Func, call *ast.CallExpr, recv ast.Expr) *Fun
 // helper does not change what a path is seen to do.
 func (c *fnCtx) inlineHelper(callee types.Object, call *ast.CallExpr) alts {
 	f, ok := callee.(*types.Func)
-	if !ok || f.Exported() || c.depth >= 4 {
-		return nil
+	if !ok || f.Exported() || c.depth >= 4 || len(c.paths) > 400 || c.branchy() {
+		return nil // (path-heavy numeric code is not expanded further)
 	}
 	def := c.e.P.Funcs[f]
 	if def == nil || def.Pkg != c.fn.Pkg || c.e.inl[def] || def == c.fn.origOrSelf() {
@@ -883,7 +905,7 @@ func (c *fnCtx) inlineHelper(callee types.Object, call *ast.CallExpr) alts {
 		delete(c.e.inl, def)
 		c.e.hcount[def] = n
 	}
-	if n == 0 || n > 24 {
+	if n == 0 || n > 48 {
 		return nil
 	}
 	var recv ast.Expr
